@@ -427,7 +427,7 @@ func TestC14Histories(t *testing.T) {
 			fmt.Sprintf("let %s = %d; T | where a > %s | take 3", fresh, rapid.IntRange(1, 9).Draw(rt, "freshval"), fresh),
 			fmt.Sprintf("T | where %s > 3 | project %s, b | take lim", fresh, fresh))
 		for i, n := 0, rapid.IntRange(2, 6).Draw(rt, "npool"); i < n; i++ {
-			switch rapid.IntRange(0, 14).Draw(rt, "srckind") {
+			switch rapid.IntRange(0, 15).Draw(rt, "srckind") {
 			case 9:
 				// many operators: any limit or table keyed by their number is the
 				// same whatever options value the call goes through
@@ -461,6 +461,9 @@ func TestC14Histories(t *testing.T) {
 				pool = append(pool, fmt.Sprintf("let %s = %d; T | where a == %s and b < p1 | take lim", p, rapid.IntRange(0, 9).Draw(rt, "v"), p))
 			case 1:
 				pool = append(pool, "T | where not(isnull(a)) and tolower(b) == strcat('x', c) | summarize n = countif(iff(a > 1, true, false)), count() by now()")
+			case 15:
+				// misspelt operator names: two different ones and the first again
+				pool = append(pool, "T | summarise count() by k", "T | wher a > 1 | project a", "T | projec a", "T | tak 1", "T | sumarize x = count()", "T | joins (U) on k", "T | Where a > 1")
 			case 14:
 				// misspelt names in let values: the error text is a function of
 				// this call's source and parameters, not of earlier failures
